@@ -107,7 +107,11 @@ def ensure_facts(repo=None, verbose=True):
             print("facts: rebuilt in %.1fs -> %s" % (time.time() - t0, os.path.basename(path)), file=sys.stderr)
         # keep the cache small: newest 6 facts files
         fs = sorted(glob.glob(os.path.join(CACHE, "facts-*.jsonl")), key=os.path.getmtime, reverse=True)
-        for old in fs[10:]:
+        try:
+            keep = os.path.join(CACHE, "facts-%s.jsonl" % tree_key("/repo")[:24])    # scratch-copy runs never evict /repo's own facts
+        except Exception:
+            keep = None
+        for old in [f for f in fs if f != keep][10:]:
             try:
                 os.remove(old)
             except OSError:
